@@ -79,3 +79,11 @@ def make_model_params():
     sig = src[src.index('void mj_makeModel('):]
     sig = sig[:sig.index('{')]
     return re.findall(r'mjtSize\s+(\w+)', sig)
+
+
+def model_flags():
+    """scalar mjtBool members of mjModel (derived flags), in declaration order, read from mjmodel.h."""
+    src = open(os.path.join(REPO, 'include/mujoco/mjmodel.h')).read()
+    body = src[src.index('struct mjModel_ {'):]
+    body = body[:body.index('} mjModel;')]
+    return re.findall(r'^\s*mjtBool\s+(\w+)\s*;', body, re.M)
